@@ -91,6 +91,7 @@ static void run_one(int idx, FILE *out, void *vctx) {
     pid_t pid = fork();
     if(pid < 0) die("fork");
     if(pid == 0) {
+        die_with_parent();
         if(chdir(dir) != 0) _exit(97);
         struct rlimit rl = {256u << 20, 256u << 20};     /* output files are limited like a small disk */
         setrlimit(RLIMIT_FSIZE, &rl);
